@@ -496,6 +496,7 @@ package twig
 //@   ensures err == nil && typeIs(ret0, "string") && unboxAs(ret0, "string") == htmlEscape(fn_toString_0(value))
 //@ func toString props: C07 C19
 //@   function
+//@   ensures[C19] typeIs(v, "string") ==> ret == unboxAs(v, "string")
 //@ func NewFilterViolation props: C06 C07
 //@   ensures ret != nil
 //@ func NewFunctionViolation props: C06
@@ -1041,3 +1042,11 @@ package twig
 // default: replaces exactly the undefined (nil) and the empty values
 //@ func (*CoreExtension).filterDefault props: C19
 //@   ensures[C19] ret1 == nil && ret0 == ite(len(args) > 0 && (value == nil || fn_isEmptyValue_0(value)), args[0], value)
+// upper / lower / trim: the named library function applied to the string form of the value (the
+// string form of a string is the string itself), hence idempotent as the library function is
+//@ func (*CoreExtension).filterUpper props: C19
+//@   ensures[C19] ret1 == nil && typeIs(ret0, "string") && unboxAs(ret0, "string") == fn_ToUpper_0(fn_toString_0(value))
+//@ func (*CoreExtension).filterLower props: C19
+//@   ensures[C19] ret1 == nil && typeIs(ret0, "string") && unboxAs(ret0, "string") == fn_ToLower_0(fn_toString_0(value))
+//@ func (*CoreExtension).filterTrim props: C19
+//@   ensures[C19] len(args) == 0 ==> ret1 == nil && typeIs(ret0, "string") && unboxAs(ret0, "string") == fn_TrimSpace_0(fn_toString_0(value))
